@@ -30,6 +30,8 @@ func init() {
 	Registry["C02"] = C02
 	Registry["C05"] = C05
 	Registry["C14"] = C14
+	Registry["C06"] = C06
+	Registry["C07"] = C07
 }
 
 func init() { Registry["C13"] = C13 }
